@@ -83,6 +83,7 @@ type CommonLex struct {
 
 	// Internal use only
 	peek           rune
+	invalidUTF8    bool // Next() has returned ERR for an invalid UTF-8 sequence
 	precToken      int  // Preceding token type, if any (otherwise EOF)
 	allowCustomFns bool // Expr may use custom XPATH functions
 	userFnChecker  UserCustomFunctionCheckerFn
@@ -534,6 +535,11 @@ func (x *CommonLex) ConstructToken(
 		}
 	}
 	var b bytes.Buffer
+	if c == xutils.ERR && x.invalidUTF8 {
+		// Never let the invalid UTF-8 marker become part of a token.
+		x.SetError(fmt.Errorf("Invalid UTF-8 input"))
+		return b
+	}
 	add(&b, c)
 
 	for {
@@ -545,6 +551,10 @@ func (x *CommonLex) ConstructToken(
 			if c == xutils.EOF {
 				x.SetError(fmt.Errorf("End of %s token not detected.",
 					tokenName))
+				break
+			}
+			if c == xutils.ERR && x.invalidUTF8 {
+				x.SetError(fmt.Errorf("Invalid UTF-8 input"))
 				break
 			}
 			add(&b, c)
@@ -667,6 +677,7 @@ func (x *CommonLex) Next() rune {
 	c, size := utf8.DecodeRune(x.line)
 	x.line = x.line[size:]
 	if c == utf8.RuneError && size == 1 {
+		x.invalidUTF8 = true
 		return xutils.ERR
 	}
 	return c
